@@ -11,9 +11,10 @@
   Proved here: the escaping/base64 round trips for *every byte string*, the parameter structure of
   the redirect URLs for every relay state and every endpoint query, ID injectivity and size.
   Partial: `compress/flate` is abstract (inverse pair assumed; exercised by the correspondence),
-  the POST forms are covered through C14's escaper theorems.
+  the POST forms: `C12_post_form` (over the template skeleton that `C14_form_skeletons` ties to the source).
 -/
 import SamlVerif.Proofs.Bindings
+import SamlVerif.Proofs.HtmlForm
 import SamlVerif.Generated.Facts
 
 namespace SamlVerif.Bindings
@@ -118,6 +119,69 @@ theorem C12_logout_single (existing : List (Bytes × Bytes)) (key msg relay : By
   · rw [countParam_perm (List.mergeSort_perm _ _), countParam_valuesSet]
 
 /-! ### message IDs -/
+
+/-! ### POST binding -/
+
+open SamlVerif.Html in
+/-- the data `AuthnRequest.Post` / `LogoutRequest.Post` hand to the template -/
+def postData (url msg relay : Bytes) : Bytes → Bytes :=
+  fun f => if f = B "URL" then url else if f = B "SAMLRequest" then b64encode msg else if f = B "RelayState" then relay else []
+
+open SamlVerif.Html in
+/-- **POST binding**: for every message, every relay state without NUL and every destination, the
+    quoted string after ` name="SAMLRequest" value=` of the emitted form, read as an HTML attribute
+    value, base64-decodes to the message, and the one after ` name="RelayState" value=` reads back as
+    the relay state byte for byte; the form has no other quoted string that depends on them.
+    (`t` is any template with the skeleton `spRequestForm`; `C14_form_skeletons` shows that the
+    templates of the current source have it.) -/
+theorem C12_post_form (t : Bytes) (ht : skelT (parseTemplate t) = spRequestForm)
+    (hk : holesKnown (skel (parseTemplate t)) = true) (url msg relay : Bytes) (hr : ∀ c ∈ relay, c.toNat ≠ 0) :
+    ((pieces (render t (postData url msg relay)))[11]?.map htmlUnescape).bind b64decode = some msg ∧
+    (pieces (render t (postData url msg relay)))[17]?.map htmlUnescape = some relay ∧
+    (pieces (render t (postData url msg relay))).length = 27 := by
+  have hq := pieces_render_tidy (postData url msg relay) (parseTemplate t) hk
+  unfold render
+  rw [hq, ht]
+  have e1 : postData url msg relay (B "SAMLRequest") = b64encode msg := by
+    unfold postData; rw [if_neg (by decide), if_pos rfl]
+  have e2 : postData url msg relay (B "RelayState") = relay := by
+    unfold postData; rw [if_neg (by decide), if_neg (by decide), if_pos rfl]
+  have n1 : nulToFFFD (b64encode msg) = b64encode msg :=
+    nulToFFFD_id _ (fun c hc => by have := b64encode_ge msg c hc; omega)
+  simp [spRequestForm, S, H, fill, fillPart, escapeFor, e1, e2, htmlUnescape_htmlEscape, n1, nulToFFFD_id relay hr, b64_roundtrip]
+
+open SamlVerif.Html in
+def postDataResponse (url msg relay : Bytes) : Bytes → Bytes :=
+  fun f => if f = B "URL" then url else if f = B "SAMLResponse" then b64encode msg else if f = B "RelayState" then relay else []
+
+open SamlVerif.Html in
+/-- the same for `LogoutResponse.Post` (field `SAMLResponse`) -/
+theorem C12_post_form_response (t : Bytes) (ht : skelT (parseTemplate t) = spResponseForm)
+    (hk : holesKnown (skel (parseTemplate t)) = true) (url msg relay : Bytes) (hr : ∀ c ∈ relay, c.toNat ≠ 0) :
+    ((pieces (render t (postDataResponse url msg relay)))[11]?.map htmlUnescape).bind b64decode = some msg ∧
+    (pieces (render t (postDataResponse url msg relay)))[17]?.map htmlUnescape = some relay ∧
+    (pieces (render t (postDataResponse url msg relay))).length = 27 := by
+  have hq := pieces_render_tidy (postDataResponse url msg relay) (parseTemplate t) hk
+  unfold render
+  rw [hq, ht]
+  have e1 : postDataResponse url msg relay (B "SAMLResponse") = b64encode msg := by
+    unfold postDataResponse; rw [if_neg (by decide), if_pos rfl]
+  have e2 : postDataResponse url msg relay (B "RelayState") = relay := by
+    unfold postDataResponse; rw [if_neg (by decide), if_neg (by decide), if_pos rfl]
+  have n1 : nulToFFFD (b64encode msg) = b64encode msg :=
+    nulToFFFD_id _ (fun c hc => by have := b64encode_ge msg c hc; omega)
+  simp [spResponseForm, S, H, fill, fillPart, escapeFor, e1, e2, htmlUnescape_htmlEscape, n1, nulToFFFD_id relay hr, b64_roundtrip]
+
+open SamlVerif.Html in
+/-- **Obligation at the regenerated templates**: the three POST templates of `service_provider.go` in the
+    current source have these skeletons and known escapers (so the two theorems above apply to them) -/
+theorem C12_post_templates :
+    (Facts.templates.filter (fun t => t.1 = "service_provider.go")).map
+        (fun t => (skelT (parseTemplate t.2.2), holesKnown (skel (parseTemplate t.2.2)))) =
+      [(spRequestForm, true), (spRequestForm, true), (spResponseForm, true)] := by decide +kernel
+
+/-- non-vacuity: a relay state full of metacharacters meets the hypothesis -/
+example : ∀ c ∈ SamlVerif.Html.B "a&b=\"c\"<d>'e'+%", c.toNat ≠ 0 := by decide
 
 /-- IDs are `"id-"` followed by the lower-case hex of the random bytes: distinct draws give
     distinct IDs, and the ID exposes 2 hex digits per random byte. -/
